@@ -332,6 +332,76 @@ func runC05(c *engine.Ctx) {
 	}
 	c.Floor(n, 3)
 
+	// ---- R3b a TLS configuration is used only when its construction succeeded ----
+	c.Rule("R3b", "every *tls.Config produced by transport.NewClientTLSConfig / NewServerTLSConfig is handed on (dial option, listener, stored) only on paths where that call's error was found nil: a failed construction must abort, not fall back to an unencrypted or unauthenticated connection")
+	n3 := 0
+	ctorC := funcObj(c, "pkg/transport", "NewClientTLSConfig")
+	ctorS := funcObj(c, "pkg/transport", "NewServerTLSConfig")
+	isTLSConfig := func(t types.Type) bool {
+		nn := engine.NamedOf(t)
+		return nn != nil && nn.Obj().Pkg() != nil && nn.Obj().Pkg().Path() == "crypto/tls" && nn.Obj().Name() == "Config"
+	}
+	for _, f := range p.RepoFuncs() {
+		if ctorC == nil || ctorS == nil || len(engine.CallsTo(f, ctorC, ctorS)) == 0 {
+			continue
+		}
+		// uses: calls that receive a *tls.Config, stores of one into a field
+		var track []ssa.Value
+		use := map[ssa.Instruction][]ssa.Value{}
+		engine.ForEachInstr(f, func(in ssa.Instruction) {
+			switch x := in.(type) {
+			case ssa.CallInstruction:
+				if engine.IsCallTo(in, ctorC, ctorS) {
+					return
+				}
+				for _, a := range x.Common().Args {
+					if isTLSConfig(a.Type()) {
+						use[in] = append(use[in], a)
+						track = append(track, a)
+					}
+				}
+			case *ssa.Store:
+				if isTLSConfig(x.Val.Type()) {
+					if lf, _ := engine.LoadedField(x.Addr); lf != nil {
+						use[in] = append(use[in], x.Val)
+						track = append(track, x.Val)
+					}
+				}
+			case *ssa.Return:
+				for _, r := range x.Results {
+					if isTLSConfig(r.Type()) {
+						use[in] = append(use[in], r)
+						track = append(track, r)
+					}
+				}
+			}
+		})
+		if len(use) == 0 {
+			continue
+		}
+		n3++
+		c.AllPaths(p.FuncName(f)+">tls-config-use", engine.PathCheck{Fn: f, Track: track,
+			Sink: func(in ssa.Instruction) bool { return len(use[in]) > 0 },
+			Pred: func(st *engine.PathState) string {
+				for _, a := range use[st.Sink] {
+					v := st.Resolve(a)
+					cl, i := engine.ResultOfCall(v)
+					if cl == nil || i != 0 || !(engine.SameFunc(engine.CalleeObj(cl), ctorC) || engine.SameFunc(engine.CalleeObj(cl), ctorS)) {
+						continue // nil, or a configuration from elsewhere
+					}
+					isNil, known := st.IsNil(func(x ssa.Value) bool {
+						c2, j := engine.ResultOfCall(x)
+						return c2 == cl && j == 1
+					})
+					if !(known && isNil) {
+						return "a TLS configuration is used on a path where the error of its construction was not found nil: with an unreadable CA / certificate the connection would silently proceed without the configured protection"
+					}
+				}
+				return ""
+			}}, "TLS configurations are used only after a successful construction")
+	}
+	c.Floor(n3, 6)
+
 	// ---- R4 control-channel cipher ----
 	c.Rule("R4", "server and client NewControl build the dispatcher on NewCryptoReadWriter(conn, token) exactly when their encrypted flag is set; the flag is !internal on the server and false only for ssh-tunnel on the client")
 	n = 0
@@ -345,7 +415,7 @@ func runC05(c *engine.Ctx) {
 		for _, dc := range engine.CallsTo(f, newDisp) {
 			n++
 			call := dc.(*ssa.Call)
-			c.AllPaths(fmt.Sprintf("%s>dispatcher#%d", side.sym, n), engine.PathCheck{Fn: f, Sink: engine.Is(dc), Pred: func(st *engine.PathState) string {
+			c.AllPaths(fmt.Sprintf("%s>dispatcher#%d", side.sym, n), engine.PathCheck{Fn: f, Sink: engine.Is(dc), Track: []ssa.Value{call.Call.Args[0]}, Pred: func(st *engine.PathState) string {
 				enc, k := st.Truth(isFlag(side.flag))
 				if !k {
 					enc, k = st.Truth(isParam(side.flag))
@@ -353,7 +423,8 @@ func runC05(c *engine.Ctx) {
 				if !k {
 					return "the dispatcher is created without consulting the encrypted flag"
 				}
-				src := engine.Provenance(call.Call.Args[0], engine.ProvOpts{})
+				// the stream this very path hands to the dispatcher (one merged NewDispatcher(rw) call is as good as two)
+				src := engine.Provenance(st.Resolve(call.Call.Args[0]), engine.ProvOpts{})
 				onCrypto := src.HasCall(crypto)
 				if enc && !onCrypto {
 					return "the control channel is marked encrypted but the dispatcher runs on the raw connection"
@@ -389,7 +460,7 @@ func runC05(c *engine.Ctx) {
 			c.Check(okFlag, "server.Service.RegisterControl>encrypted-flag", call.Pos(), 1, nil, "server control channels are encrypted unless the connection is the in-process one (!internal)")
 		}
 	}
-	if f := fn(c, "client.Service.loopLoginUntilSuccess"); f != nil {
+	if f := clientLoginLoop(c); f != nil {
 		encF := field(c, "client", "SessionContext", "ConnEncrypted")
 		for _, g := range append([]*ssa.Function{f}, allAnon(f)...) {
 			engine.ForEachInstr(g, func(in ssa.Instruction) {
@@ -401,7 +472,7 @@ func runC05(c *engine.Ctx) {
 					return
 				}
 				n++
-				c.AllPaths("client.Service.loopLoginUntilSuccess>encrypted-flag", engine.PathCheck{Fn: g, Sink: engine.Is(in), Track: []ssa.Value{st.Val}, Pred: func(ps *engine.PathState) string {
+				c.AllPaths(c.P.FuncName(f)+">encrypted-flag", engine.PathCheck{Fn: g, Sink: engine.Is(in), Track: []ssa.Value{st.Val}, Pred: func(ps *engine.PathState) string {
 					v, isC := engine.ConstBool(ps.Resolve(st.Val))
 					if !isC {
 						return "the encrypted flag is not a constant per path"
@@ -418,7 +489,7 @@ func runC05(c *engine.Ctx) {
 			})
 		}
 	}
-	c.Floor(n, 5)
+	c.Floor(n, 4) // at least one dispatcher per side and one flag site per side
 
 	// ---- R5 stacks ----
 	checkStacks(c, "R5")
